@@ -673,7 +673,9 @@ class UrwidImageScreen(urwid.raw_display.Screen):
         for canv, *_ in self._ti_image_cviews - image_cviews:
             widget = canv.widget_info[0]
             if isinstance(widget._ti_image, KittyImage):
-                kitty_widgets.append(widget)
+                # Only once, multiple changes may restore the widget's canvas disguise
+                if widget not in kitty_widgets:
+                    kitty_widgets.append(widget)
             else:
                 self.clear_images()
                 # Multiple `clear_images()`s messes up the canvas disguise
